@@ -628,7 +628,7 @@ def gen_c12(tier, seed):
                      "traces": [{"args": {}, "vals": {"d": val}, "ret": None, "yld": None}]}
                 cases.append({"funcs": [f], "strategy": "REPLICATE", "k": k, "family": "c12_dict_keys_that_are_not_identifiers"})
     # parameter names that give odd class-name hints for generated TypedDict classes (`_1` -> `1TypedDict...`, `_`, `a_1`)
-    for n, pname in enumerate(["_1", "_", "a_1", "__x", "x9"]):
+    for n, pname in enumerate(["_1", "_", "a_1", "__x", "x9", "none_type", "NoneType", "typing", "typing_x", "none"]):
         for k in (3,):
             ps = [{"name": pname, "kind": "poskw", "default": None}]
             f = {"name": "odd_param_%d" % n, "container": [], "fkind": "module", "params": ps,
@@ -704,6 +704,16 @@ def gen_c13(tier, seed):
                              "traces": [{"args": dict(targs), "ret": INT, "yld": None}]}
                         cases.append({"funcs": [f], "strategy": strategy, "k": 0, "family": "c13_matrix_other_parameter_kinds",
                                       "via_cli": n % 5 == 0})
+    # functions that are NOT methods (module level, static) whose first parameter is called like a receiver
+    for n, first in enumerate(("self", "cls", "mcs")):
+        for fk, cont in (("module", []), ("static", ["Cls"])):
+            for ann in (None, "str"):
+                ps = [{"name": first, "kind": "poskw", "default": None, "ann": ann}, {"name": "n", "kind": "poskw", "default": "None"}]
+                for strategy in ("REPLICATE", "OMIT", "IGNORE"):
+                    f = {"name": "named_like_a_receiver", "container": cont, "fkind": fk, "params": [dict(p) for p in ps], "ret_ann": None,
+                         "traces": [{"args": {first: INT, "n": INT}, "ret": INT, "yld": None}]}
+                    cases.append({"funcs": [f], "strategy": strategy, "k": 0, "family": "c13_first_parameter_named_like_a_receiver",
+                                  "via_cli": n == 0})
     # several traces of ONE function that differ in one column only (what it yielded / returned / one argument)
     pa2 = [{"name": "a", "kind": "poskw", "default": None}, {"name": "b", "kind": "poskw", "default": "None"}]
     BYTES = T("cls", "bytes")
@@ -851,6 +861,15 @@ def gen_c11(tier, seed, env_text):
         tdp = T("td", "", [], [T("req", "owner", [x]), T("req", "n", [INT])])
         f2 = dict(f, traces=[{"args": {"a": tdp, "b": y}, "ret": None, "yld": None}])
         cases.append({"funcs": [f2], "strategy": "REPLICATE", "k": 3, "family": "c11_module_inside_packages"})
+    # parameter / field / function names whose class-name hint starts like a word the renderer rewrites (NoneType, typing)
+    tdv = T("td", "", [], [T("req", "a", [INT]), T("req", "b", [STR])])
+    for pname in ("none_type", "NoneType", "noneType", "typing", "typing_x", "none", "nonetype_of"):
+        ps = [{"name": pname, "kind": "poskw", "default": None}]
+        f = {"name": "func", "container": [], "fkind": "module", "params": ps, "traces": [{"args": {pname: tdv}, "ret": None, "yld": None}]}
+        cases.append({"funcs": [f], "strategy": "REPLICATE", "k": 3, "family": "c11_names_whose_class_name_hint_starts_like_a_rewritten_word"})
+        g = {"name": pname, "container": [], "fkind": "module", "params": [{"name": "x", "kind": "poskw", "default": None}],
+             "traces": [{"args": {"x": T("td", "", [], [T("req", pname, [tdv])])}, "ret": tdv, "yld": None}]}
+        cases.append({"funcs": [g], "strategy": "REPLICATE", "k": 3, "family": "c11_names_whose_class_name_hint_starts_like_a_rewritten_word"})
     # a module whose ONLY need for a typing name comes from one construct (Optional of an `Any` annotation with a None default, ...)
     for ann, dflt in (("Any", "None"), ("List[Any]", "None"), ("Any", "1"), ("Dict[str, Any]", "None"), ("Tuple[Any, ...]", "None")):
         ps = [{"name": "a", "kind": "poskw", "default": None}, {"name": "b", "kind": "poskw", "default": dflt, "ann": ann}]
@@ -865,6 +884,8 @@ def gen_c11(tier, seed, env_text):
                   "family": "c11_functools_cached_property"})
     # replicated source annotations that are strings / NewTypes / classes of other modules (no trace for that position)
     for ann in ("'Own'", "ExtId", "zutil.A", "Optional['Own']", "List[ExtId]", "zutil.Reg.Slot[int]", "List[zutil.Reg.Slot[zutil.A]]",
+                # a user-defined generic parameterised with TYPING constructs (the outermost type is not typing's)
+                "zutil.Reg.Slot[List[int]]", "zutil.Reg.Slot[Optional[zutil.A]]", "zutil.Reg.Slot[Dict[str, List[int]]]",
                 "zutil.Outer.Inner", "Dict[str, zutil.Outer.Inner]",
                 # PEP 585 / PEP 604 spellings in the source
                 "list[zutil.A]", "zutil.A | None", "dict[str, zutil.Outer.Inner]", "list[int] | None", "tuple[zutil.A, ...]"):
